@@ -87,7 +87,7 @@ def _ring_or_box(r: random.Random, n_labels: int, wide: float) -> Dict[str, Any]
     }
 
 
-def gen_scenario(r: random.Random, task: Optional[str] = None, n_frames: Optional[int] = None, big: bool = False, fp_share: Optional[float] = None, overrides: Optional[Dict[str, Any]] = None, det: Optional[Dict[str, Any]] = None, categories: Optional[List[str]] = None, target: Optional[List[str]] = None, merge: Optional[bool] = None) -> Scenario:
+def gen_scenario(r: random.Random, task: Optional[str] = None, n_frames: Optional[int] = None, big: bool = False, fp_share: Optional[float] = None, overrides: Optional[Dict[str, Any]] = None, det: Optional[Dict[str, Any]] = None, categories: Optional[List[str]] = None, target: Optional[List[str]] = None, merge: Optional[bool] = None, fast_ego: bool = False) -> Scenario:
     task = task or r.choice(["detection", "detection", "tracking", "fp_validation"])
     n_frames = n_frames or r.randint(1, 4 if not big else 8)
     wide = r.choice([30.0, 60.0, 100.0])
@@ -95,8 +95,8 @@ def gen_scenario(r: random.Random, task: Optional[str] = None, n_frames: Optiona
     far = r.choice([1e4, 1e5])  # map coordinates of the order of an MGRS grid cell
     ego_pos = (r.uniform(-far, far), r.uniform(-far, far), r.uniform(-3, 3)) if far_ego else (r.uniform(-100, 100), r.uniform(-100, 100), 0.0)
     ego_yaw = O.rand_yaw(r)
-    ego_speed = r.uniform(0, 15)
-    ego_yawrate = r.uniform(-0.5, 0.5)
+    ego_speed = r.uniform(0, 15) if not fast_ego else r.uniform(15, 40)
+    ego_yawrate = r.uniform(-0.5, 0.5) if not fast_ego else r.choice([-1, 1]) * r.uniform(0.3, 0.9)
     t0 = 1_600_000_000_000_000 + r.randint(0, 10**9)
     dt = r.choice([100_000, 100_000, 50_000, 500_000])
     _merge_default = r.random() < 0.3
